@@ -118,7 +118,7 @@ def literal(x, code=0):
     if A.is_int(x):
         if x == MIN:
             return "0x8000000000000000"
-        body = {1: "0x%x", 3: "0b{:b}", 4: "0o{:o}"}.get(code)
+        body = {1: "0x%x", 4: "0o{:o}"}.get(code)
         if body is None:
             t = str(abs(x))
         elif "%" in body:
@@ -231,7 +231,7 @@ def invocation(kind, ops, rows, idx, ctx):
     return (["--idkvp", "--odkvp", "put", program(kind, ops, ctx.mode)], stdin, None)
 
 
-def run_rows(kind, ops, rows, idx, ctx, cpu_s=12):
+def run_rows(kind, ops, rows, idx, ctx, cpu_s=4):
     """One mlr process over rows[idx]; returns {row index: {op index: got}} or raises Died."""
     argv, stdin, files = invocation(kind, ops, rows, idx, ctx)
     r = R.mlr(argv, stdin=stdin, files=files, cpu_s=cpu_s, watchdog=120.0)
@@ -277,7 +277,10 @@ def row_class(row):
     return tuple(A.cls(x) for x in row)
 
 
-HANG_CELLS_PER_OP = 6     # every confirmed hanging cell costs its CPU cap; stop localising after that many
+CPU_RECOVERY = 1          # RLIMIT_CPU (s, +2 s to the hard limit) of the re-runs; a healthy sub-batch needs < 0.1 s
+HANG_CELLS_PER_OP = 3     # every confirmed hanging cell costs its CPU cap; stop localising after that many
+DEATHS_PER_CLASS = 3      # single-row deaths confirmed per operand class; further rows of that class are not re-run
+RECOVERY_BUDGET = 150     # processes per case spent on localising deaths; beyond it the deaths are reported unlocalised
 
 
 def recover(kind, opk, rows, idx, ctx, table, res):
@@ -286,14 +289,39 @@ def recover(kind, opk, rows, idx, ctx, table, res):
     are tried one by one (they usually all die, and a process can only report its first)."""
     k, op = opk
     bad_classes = set()
+    deaths = {}
     hangs = 0
+    last_text = ""
     work = [list(idx)]
     while work:
         chunk = work.pop()
         if hangs >= HANG_CELLS_PER_OP:
+            # enough hanging cells shown: rows of the classes that hang are left alone, the others get one more run
+            rest = [i for i in chunk if row_class(rows[i]) not in bad_classes]
+            got = None
+            if rest:
+                try:
+                    got = run_rows(kind, [opk], rows, rest, ctx, cpu_s=CPU_RECOVERY)
+                    bump(res, "recovery_runs")
+                except Died:
+                    bump(res, "recovery_runs")
             for i in chunk:
-                table.setdefault(i, {})[k] = ("died", "unlocalised", "not localised (enough hanging cells found)", "")
+                if got is not None and i in got:
+                    table.setdefault(i, {})[k] = got[i][k]
+                else:
+                    table.setdefault(i, {})[k] = ("died", "unlocalised", "not localised (enough hanging cells found)", "")
             continue
+        if res["stats"].get("recovery_runs", 0) >= RECOVERY_BUDGET:
+            for i in chunk:
+                table.setdefault(i, {})[k] = ("died", "unlocalised", "not localised (budget spent): " + last_text, "")
+            continue
+        sat = [i for i in chunk if deaths.get(row_class(rows[i]), 0) >= DEATHS_PER_CLASS]
+        if sat:
+            for i in sat:
+                table.setdefault(i, {})[k] = ("died", "unlocalised", "same operand class as confirmed deaths", "")
+            chunk = [i for i in chunk if deaths.get(row_class(rows[i]), 0) < DEATHS_PER_CLASS]
+            if not chunk:
+                continue
         if len(chunk) > 1 and bad_classes:
             sus = [i for i in chunk if row_class(rows[i]) in bad_classes]
             if sus:
@@ -304,29 +332,31 @@ def recover(kind, opk, rows, idx, ctx, table, res):
                     work.append([i])
                 continue
         try:
-            got = run_rows(kind, [opk], rows, chunk, ctx, cpu_s=6)
+            got = run_rows(kind, [opk], rows, chunk, ctx, cpu_s=CPU_RECOVERY)
             bump(res, "recovery_runs")
             for i in chunk:
                 table.setdefault(i, {})[k] = got[i][k]
         except Died as d:
             bump(res, "recovery_runs")
+            last_text = death_text(d.r)
             if len(chunk) == 1:
                 lab = death_label(d.r)
                 if lab in ("hang", "slow"):
                     hangs += 1
                 table.setdefault(chunk[0], {})[k] = ("died", lab, death_text(d.r), d.r.verdict)
                 bad_classes.add(row_class(rows[chunk[0]]))
+                deaths[row_class(rows[chunk[0]])] = deaths.get(row_class(rows[chunk[0]]), 0) + 1
             else:
                 mid = len(chunk) // 2
                 work.append(chunk[mid:])
                 work.append(chunk[:mid])
 
 
-def eval_ops(kind, ops, rows, idx, ctx, table, res):
+def eval_ops(kind, ops, rows, idx, ctx, table, res, cpu_s=4):
     """Fill table[row][op] for the given operators and rows; when the process dies, halve the
     operator set until the dying operator(s) are alone, then localise the rows."""
     try:
-        got = run_rows(kind, ops, rows, idx, ctx)
+        got = run_rows(kind, ops, rows, idx, ctx, cpu_s=cpu_s)
         for i in idx:
             table.setdefault(i, {}).update(got[i])
         return
@@ -336,8 +366,8 @@ def eval_ops(kind, ops, rows, idx, ctx, table, res):
         recover(kind, ops[0], rows, idx, ctx, table, res)
         return
     mid = len(ops) // 2
-    eval_ops(kind, ops[:mid], rows, idx, ctx, table, res)
-    eval_ops(kind, ops[mid:], rows, idx, ctx, table, res)
+    eval_ops(kind, ops[:mid], rows, idx, ctx, table, res, cpu_s=2)
+    eval_ops(kind, ops[mid:], rows, idx, ctx, table, res, cpu_s=2)
 
 
 LITERAL_ROWS_PER_PROCESS = 250
@@ -722,7 +752,8 @@ def _finish(case, kind, rows, spells=None, mode="data", opsel=None):
     elif spells is None:
         spells = auto_spells(kind, rows)
     if mode == "literal" and spells:
-        spells = [tuple(c if c in (SP_HEX2C, SP_BIN, SP_OCT) else SP_DEC for c in sp) for sp in spells]
+        # the DSL grammar has decimal, 0x and 0o int literals (no 0b literal; not this property's business)
+        spells = [tuple(c if c in (SP_HEX2C, SP_OCT) else SP_DEC for c in sp) for sp in spells]
     check_rows(kind, rows, res, Ctx(mode, spells), opsel)
     if rows:
         j = len(rows) // 2
@@ -963,7 +994,7 @@ def run(chk):
         "int. roundm on ints: help 'round($x/$m)*$m' on the exact quotient, halves away from zero (as round()); "
         "when that multiple is beyond int64: its float (4 ulp) or an error value.",
         "A cell is a hang (violation) when the process given that ONE row and ONE operator exhausts its CPU cap "
-        "(6 s; a healthy cell takes microseconds), produces unbounded output or deadlocks; only the wall-clock "
+        "(1 s + 2 s grace; a healthy cell takes microseconds), produces unbounded output or deadlocks; only the wall-clock "
         "watchdog verdict 'slow' and batches that could not be bisected stay inconclusive.",
         "Transcendental functions, bitcount, msub-style functions on strings, and .+ on non-numbers are outside the "
         "statement and not exercised here.",
